@@ -17,6 +17,7 @@ type loopInfo struct {
 	riLen    ssa.Value
 	rng      *ssa.Range
 	rinfo    *rangeInfo
+	strPos   string // ghost key of the byte position of a range-over-string loop ($pos in invariants)
 	entryOld *State // state at loop entry (for old-at-entry in invariants: 'old' still means function entry)
 }
 
@@ -53,8 +54,25 @@ func rangeIterOf(b *ssa.BasicBlock) *ssa.Range {
 	return nil
 }
 
+// rangeStringOf recognises the header of a range-over-string loop.
+func rangeStringOf(b *ssa.BasicBlock) *ssa.Range {
+	for _, in := range b.Instrs {
+		if nx, ok := in.(*ssa.Next); ok && nx.IsString {
+			if r, ok := nx.Iter.(*ssa.Range); ok {
+				return r
+			}
+		}
+	}
+	return nil
+}
+
 func (fr *Frame) loopVars(li *loopInfo, st *State) map[string]EV {
 	vars := map[string]EV{}
+	if li.strPos != "" {
+		if v, ok := st.ghost[li.strPos]; ok {
+			vars["$pos"] = EV{T: v, Ty: types.Typ[types.Int]}
+		}
+	}
 	if li.riAlloc != nil {
 		if t, ok := st.regs[li.riAlloc]; ok {
 			vars["$idx"] = EV{T: Add(t, IntLit(1)), Ty: types.Typ[types.Int]}
@@ -95,6 +113,17 @@ func (fr *Frame) loopCut(b *ssa.BasicBlock, ord int, ci *cfgInfo) {
 		}
 		fr.rangeInfo[rng] = li.rinfo
 		fr.st.ghost[li.rinfo.visKey] = T(fmt.Sprintf("((as const %s) false)", ArraySort(ks, SBool)), ArraySort(ks, SBool))
+	}
+	var strX Term
+	if rng := rangeStringOf(b); rng != nil {
+		// range over a string: the loop visits the byte positions 0, w0, w0+w1, ... ($pos is the next one)
+		li.strPos = fmt.Sprintf("strpos.%s.%d", fr.Fn.Name(), ord)
+		if fr.strPos == nil {
+			fr.strPos = map[*ssa.Range]string{}
+		}
+		fr.strPos[rng] = li.strPos
+		fr.st.ghost[li.strPos] = IntLit(0)
+		strX = fr.termOf(fr.val(rng.X))
 	}
 	// invariant on entry
 	fr.checkInvariants(li, "inv-entry", b)
@@ -180,6 +209,11 @@ func (fr *Frame) loopCut(b *ssa.BasicBlock, ord int, ci *cfgInfo) {
 	}
 	if li.rinfo != nil {
 		fr.st.ghost[li.rinfo.visKey] = r.Sc.FreshConst("lp.visited", fr.st.ghost[li.rinfo.visKey].Sort)
+	}
+	if li.strPos != "" {
+		p := r.Sc.FreshConst("lp.strpos", SInt)
+		fr.st.ghost[li.strPos] = p
+		fr.assume(And(Le(IntLit(0), p), Le(p, app(SInt, "str.len", strX))))
 	}
 	if eff.defers {
 		r.unsupported("defer inside a loop in %s", fr.Fn)
